@@ -240,6 +240,9 @@ func verifStep(p *partition, m *verifModel, dim, nIds, grid int, step int, kinds
 				mds[j] = verifMeta(tag + string(rune('a'+j)))
 				it.Value, it.Metadata = vecs[j], mds[j]
 			}
+			if kind == 3 {
+				it.Level = int32(verifrt.IntIn("level", 0, verifrt.Bound("maxlevel", 1)))
+			}
 			items = append(items, it)
 		}
 		change := &pb.PartitionChange{BatchItems: items}
